@@ -107,47 +107,7 @@ def cdigest(tree) -> str:
     ).hexdigest()[:24]
 
 
-def first_diff(a, b, path="$"):
-    """First differing path between two canonical trees (None if equal)."""
-    if type(a) is not type(b):
-        return path, a, b
-    if isinstance(a, dict):
-        if set(a) != set(b):
-            return path, sorted(a), sorted(b)
-        if "o" in a or "c" in a:
-            tag = "o" if "o" in a else "c"
-            if a[tag] != b[tag]:
-                return path + "<class>", a[tag], b[tag]
-            va, vb = a["v"], b["v"]
-            for k in sorted(set(va) | set(vb)):
-                if k not in va or k not in vb:
-                    return path + "." + k, va.get(k, "<absent>"), vb.get(k, "<absent>")
-                r = first_diff(va[k], vb[k], path + "." + k)
-                if r:
-                    return r
-            return None
-        if "d" in a:
-            if len(a["d"]) != len(b["d"]):
-                return path + "<len>", len(a["d"]), len(b["d"])
-            for i, (x, y) in enumerate(zip(a["d"], b["d"])):
-                r = first_diff(x, y, path + "{%d}" % i)
-                if r:
-                    return r
-            return None
-        if a != b:
-            return path, a, b
-        return None
-    if isinstance(a, list):
-        if len(a) != len(b):
-            return path + "<len>", len(a), len(b)
-        for i, (x, y) in enumerate(zip(a, b)):
-            r = first_diff(x, y, path + "[%d]" % i)
-            if r:
-                return r
-        return None
-    if a != b:
-        return path, a, b
-    return None
+from .canon_diff import first_diff  # noqa: E402,F401
 
 
 def plain(obj):
